@@ -146,7 +146,7 @@ def count_oracle_applies(prog):
                 return False
         if op[0] == 'tile' and op[1] > 1:
             return False
-        if op[0] in ('reshuffle', 'localshuffle'):
+        if op[0] in ('reshuffle', 'localshuffle', 'intersperse3', 'zip3', 'key_zip3'):
             return False
     return True
 
@@ -181,6 +181,7 @@ def shared_random(prog):
             seen_random = True
         elif seen_random and ((op[0] in ('concat', 'intersperse', 'zip', 'key_zip')
                                and not isinstance(op[1], dict))
+                              or op[0] in ('zip3', 'key_zip3')
                               or (op[0] == 'tile' and op[1] > 1)):
             return True
     return False
